@@ -408,6 +408,7 @@ func checkC18(p *Prog, r *Report) {
 	ruleErrorDiscipline(p, r, "R18.2", map[string]bool{"device": true}, "main.go")
 	ruleRawStrictness(p, r)
 	ruleAppendBoundary(p, r)
+	ruleMergeOrder(p, r)
 	ruleLoadOrder(p, r)
 	r.Trusted = []string{"go/ssa, call graph"}
 	r.NotDec = "positions of prepend/append in merged lists beyond the boundary guard; relative order inside each part"
@@ -649,4 +650,247 @@ func ruleAppendBoundary(p *Prog, r *Report) {
 		}
 		r.floor("R18.4", "append-position slice expressions in "+name, n, 1)
 	}
+}
+
+// ruleMergeOrder: R18.6 — the documented order of the merged lists, read from
+// the append chains that build them.
+func ruleMergeOrder(p *Prog, r *Report) {
+	r.rule("R18.6", "Order skeleton of the merge, read from the append chains that build the merged lists: Cisco ACLs — result = (raw/prepend part) ++ (existing ACL), and APPEND lines are spliced in as acl[:i] ++ appendACL ++ acl[i:] where i follows the last permit line; lines are sorted into the prepend or the append list by the [APPEND] flag; PAN-OS — rules without the APPEND attribute are collected and put in front of the existing rules, rules with it are appended behind them; Linux — a rule is inserted at index 0 unless it is marked append, in which case the index is moved back over trailing DROP rules. (The positions inside real lists are runtime values; this fixes which list goes where.)")
+	descChain := func(v ssa.Value) []string {
+		var out []string
+		for _, x := range appendChain(v) {
+			out = append(out, descValue(x, 0))
+		}
+		return out
+	}
+	for _, name := range []string{"cisco.mergeASAACLs", "cisco.mergeIOSACLs"} {
+		fn := p.Fn(name)
+		if fn == nil {
+			r.fail("R18.6", "anchor|"+name, "", "not found", "")
+			continue
+		}
+		var pre, app bool
+		acc := accumulatorKinds(fn, "field cisco.cmd.append")
+		kindOf := func(v ssa.Value) string {
+			for d := 0; d < 5; d++ {
+				if k, ok := acc[v]; ok {
+					return k
+				}
+				switch x := v.(type) {
+				case *ssa.Slice:
+					v = x.X
+				case *ssa.Phi:
+					for _, e := range x.Edges {
+						if k, ok := acc[e]; ok {
+							return k
+						}
+					}
+					return ""
+				default:
+					return ""
+				}
+			}
+			return ""
+		}
+		for _, cs := range callsOf(fn) {
+			b, ok := cs.In.Common().Value.(*ssa.Builtin)
+			if !ok || b.Name() != "append" || cs.In.Value() == nil {
+				continue
+			}
+			// only outermost appends (result not itself an argument of an append)
+			outer := true
+			for _, ref := range *cs.In.Value().Referrers() {
+				if c2, ok := ref.(*ssa.Call); ok {
+					if b2, ok := c2.Common().Value.(*ssa.Builtin); ok && b2.Name() == "append" && c2.Common().Args[0] != cs.In.Value() {
+						outer = false
+					}
+				}
+			}
+			if !outer {
+				continue
+			}
+			ch := appendChain(cs.In.Value())
+			if len(ch) == 2 {
+				// prependACL ++ acl : first operand is the list built from non-append raw lines
+				d0, d1 := descValue(ch[0], 0), descValue(ch[1], 0)
+				_ = d1
+				if sl, ok := ch[0].(*ssa.Slice); ok {
+					_ = sl
+				}
+				// identify by variable comment of the phi / alloc
+				_ = d0
+				if kindOf(ch[0]) == "not-flag" && kindOf(ch[1]) == "" {
+					pre = true
+				}
+			}
+			if len(ch) == 3 {
+				s0, ok0 := ch[0].(*ssa.Slice)
+				s2, ok2 := ch[2].(*ssa.Slice)
+				if ok0 && ok2 && kindOf(ch[1]) == "flag" && s0.Low == nil && s0.High != nil && s2.Low != nil && s2.High == nil && s0.High == s2.Low && sameSlice(s0.X, s2.X) {
+					app = true
+				}
+			}
+		}
+		r.add("R18.6", "prepend-order|"+name, p.pos(fn.Pos()), "merged ACL = prependACL ++ existing ACL", pre, "raw lines without [APPEND] no longer precede the Netspoc lines")
+		r.add("R18.6", "append-splice|"+name, p.pos(fn.Pos()), "APPEND lines are spliced as acl[:i] ++ appendACL ++ acl[i:]", app, "APPEND lines are not placed between the last permit and the trailing deny lines")
+		// sorting into the two lists by the append flag
+		flagOK := false
+		for _, b := range fn.Blocks {
+			if i := ifOf(b); i != nil {
+				if strings.Contains(descCond(i.Cond, true), "field cisco.cmd.append") {
+					flagOK = true
+				}
+			}
+		}
+		r.add("R18.6", "append-flag-tested|"+name, p.pos(fn.Pos()), "lines are sorted into prepend/append lists by the [APPEND] flag", flagOK, "")
+	}
+	// PAN-OS
+	if fn := p.Fn("(*panos.PanConfig).MergeSpoc"); fn != nil && len(fn.AnonFuncs) > 0 {
+		cl := fn.AnonFuncs[0]
+		okTop := false
+		okFlag := false
+		for _, b := range cl.Blocks {
+			if i := ifOf(b); i != nil && strings.Contains(descCond(i.Cond, true), "field panos.panRule.Append") {
+				okFlag = true
+			}
+			for _, in := range b.Instrs {
+				st, ok := in.(*ssa.Store)
+				if !ok {
+					continue
+				}
+				fa, ok := st.Addr.(*ssa.FieldAddr)
+				if !ok || fieldName(fa) != "panos.panVsys.Rules" {
+					continue
+				}
+				ch := appendChain(st.Val)
+				accP := accumulatorKinds(cl, "field panos.panRule.Append == nil")
+				if len(ch) == 2 && strings.Contains(descValue(ch[1], 0), "panos.panVsys.Rules") {
+					k := ""
+					if kk, ok := accP[ch[0]]; ok {
+						k = kk
+					} else if ph, ok := ch[0].(*ssa.Phi); ok {
+						for _, e := range ph.Edges {
+							if kk, ok := accP[e]; ok {
+								k = kk
+							}
+						}
+					}
+					if k == "flag" { // collected under Append == nil
+						okTop = true
+					}
+				}
+			}
+		}
+		r.add("R18.6", "panos-prepend|(*panos.PanConfig).MergeSpoc", p.pos(fn.Pos()), "rules without APPEND are put in front: v1.Rules = top ++ v1.Rules", okTop, "raw rules no longer precede the Netspoc rules")
+		r.add("R18.6", "panos-append-flag|(*panos.PanConfig).MergeSpoc", p.pos(fn.Pos()), "the APPEND attribute decides between prepend and append", okFlag, "")
+	} else {
+		r.fail("R18.6", "anchor|panos MergeSpoc", "", "not found", "")
+	}
+	// Linux
+	if fn := p.Fn("(*linux.config).MergeSpoc"); fn != nil {
+		okIns, okFlag, okDrop := false, false, false
+		for _, cs := range callsOf(fn) {
+			n, _, _ := strings.Cut(cs.calleeName(), "[")
+			if n == "slices.Insert" {
+				okIns = true
+			}
+		}
+		for _, b := range fn.Blocks {
+			if i := ifOf(b); i != nil {
+				d := descCond(i.Cond, true)
+				if strings.Contains(d, "field linux.rule.append") {
+					okFlag = true
+				}
+				if strings.Contains(d, `"DROP"`) {
+					okDrop = true
+				}
+			}
+		}
+		r.add("R18.6", "linux-insert|(*linux.config).MergeSpoc", p.pos(fn.Pos()), "raw rules are inserted (index 0, or before the trailing DROP rules when marked append)", okIns && okFlag && okDrop,
+			"the chain merge lost the prepend / append-before-DROP placement")
+	} else {
+		r.fail("R18.6", "anchor|linux MergeSpoc", "", "not found", "")
+	}
+	_ = descChain
+}
+
+// accumulatorKinds: loop-carried slices (header phis and the append results
+// that flow back into them) that are appended to under a condition whose
+// normalised text contains cond ("flag") or its negation ("not-flag").
+func accumulatorKinds(fn *ssa.Function, cond string) map[ssa.Value]string {
+	out := map[ssa.Value]string{}
+	for _, cs := range callsOf(fn) {
+		b, ok := cs.In.Common().Value.(*ssa.Builtin)
+		if !ok || b.Name() != "append" || cs.In.Value() == nil {
+			continue
+		}
+		kind := ""
+		for _, g := range guardSet(cs.In) {
+			if g == cond || strings.HasSuffix(g, cond) && !strings.HasPrefix(g, "!") {
+				kind = "flag"
+			}
+			if g == "!"+cond || negatedCond(g, cond) {
+				kind = "not-flag"
+			}
+		}
+		if kind == "" {
+			continue
+		}
+		base := cs.In.Common().Args[0]
+		out[base] = kind
+		out[cs.In.Value()] = kind
+		if ph, ok := base.(*ssa.Phi); ok {
+			for _, e := range ph.Edges {
+				out[e] = kind
+			}
+		}
+		// phis that merge this append result
+		for _, ref := range *cs.In.Value().Referrers() {
+			if ph, ok := ref.(*ssa.Phi); ok {
+				out[ph] = kind
+			}
+		}
+	}
+	return out
+}
+
+// negatedCond: g is the negation of cond for comparison conditions
+// ("x == nil" vs "x != nil").
+func negatedCond(g, cond string) bool {
+	if strings.Contains(cond, " == ") {
+		return g == strings.Replace(cond, " == ", " != ", 1)
+	}
+	if strings.Contains(cond, " != ") {
+		return g == strings.Replace(cond, " != ", " == ", 1)
+	}
+	return false
+}
+
+// nameOfVar: source variable name of an SSA value (phi/alloc comment), looking
+// through re-slicing.
+func nameOfVar(v ssa.Value) string {
+	for d := 0; d < 4; d++ {
+		switch x := v.(type) {
+		case *ssa.Phi:
+			return x.Comment
+		case *ssa.Alloc:
+			return x.Comment
+		case *ssa.Slice:
+			v = x.X
+			continue
+		case *ssa.UnOp:
+			if al, ok := x.X.(*ssa.Alloc); ok {
+				return al.Comment
+			}
+		case *ssa.Parameter:
+			return x.Name()
+		case *ssa.Call:
+			if b, ok := x.Common().Value.(*ssa.Builtin); ok && b.Name() == "append" {
+				v = x.Common().Args[0]
+				continue
+			}
+		}
+		break
+	}
+	return ""
 }
